@@ -45,7 +45,8 @@ MODULE_C = "AurelVerif.Props.C18c"
 THEOREMS_C = ["AurelVerif.C18." + t for t in (
     "selection_is_by_parsed_variable", "restart_data_describes_the_variable",
     "restart_level_lines_describe_the_variable", "restart_data_no_parseable_key",
-    "variable_named_like_the_attribute_group_is_catalogued", "variables_of_one_file_are_not_mixed")]
+    "variable_named_like_the_attribute_group_is_catalogued", "variables_of_one_file_are_not_mixed",
+    "group_variables_from_one_chunk_file", "group_variables_from_one_chunk_file_any_order")]
 FILES = ["AurelVerif/Props/C18c.lean", "AurelVerif/Lemmas/C18Select.lean", "AurelVerif/Props/C18b.lean", "AurelVerif/Lemmas/C18Par.lean", "AurelVerif/Model/ParFile.lean",
          "AurelVerif/Props/C18.lean", "AurelVerif/Lemmas/Catalog.lean", "AurelVerif/Lemmas/CatalogParse.lean",
          "AurelVerif/Lemmas/CatalogIncr.lean", "AurelVerif/Lemmas/CatalogScan.lean",
@@ -1074,6 +1075,112 @@ def regex_differential(ctx, reading):
                    " ;; ".join(bad[:5]), kind="correspondence")
 
 
+# --------------------------------------------------------------------------
+# known finding: get_content reads the variables of a group from ONE chunk file
+
+CHUNK_WITNESSES = {
+    # one file per process; process files 1 and 2 appear with the regrid at iteration 48, when only H is written
+    # (HC and rho have a larger out_every): whether variables are lost depends on which chunk file the directory
+    # listing yields first
+    "late_chunk_files": {"file_0": {"H": [32, 40, 48, 56], "HC": [32], "rho": [32]},
+                         "file_1": {"H": [48, 56]}, "file_2": {"H": [48, 56]}},
+    # the same mechanism independent of the listing order: each chunk file lacks a variable the other one holds
+    "disjoint_chunk_files": {"file_0": {"H": [32, 40, 48, 56], "HC": [32, 48]},
+                             "file_1": {"H": [48, 56], "rho": [48]}},
+}
+
+
+def build_chunk_witness(root, which):
+    """writes the witness simulation (one restart, group HYDROBASE 'hydrobase-ham'); returns (param, restart
+    directory, variables on disk)"""
+    import h5py
+    name = "chunks_" + which
+    d = os.path.join(root, name, "output-0000", name)
+    os.makedirs(d)
+    on_disk = set()
+    for fn, vs in CHUNK_WITNESSES[which].items():
+        c = int(fn.split("_")[1])
+        with h5py.File(os.path.join(d, "hydrobase-ham.%s.h5" % fn), "w") as f:
+            for v, its in vs.items():
+                on_disk.add(v)
+                for it in its:
+                    f.create_dataset("HYDROBASE::%s it=%d tl=0 rl=0 c=%d" % (v, it, c), data=np.zeros(1))
+            f.create_group(ATTR_GROUP)
+    return {"simpath": root + "/", "simname": name}, d, sorted(on_disk)
+
+
+def chunk_witness_lines(param, d):
+    """protocol lines describing the witness directory (listing order as the OS gives it)"""
+    import h5py
+    out = ["sim %s %s" % (enc(param["simpath"]), enc(param["simname"])), "restart 0"]
+    for fn in os.listdir(d):
+        keys, ho = [], []
+        if fn.endswith(".h5"):
+            with h5py.File(os.path.join(d, fn), "r") as f:
+                keys = list(f.keys())
+            ho = list({RX_KEY.match(k).group(2) for k in keys if RX_KEY.match(k)})
+        out.append("file 0 %s %s %s" % (enc(fn), encl(ho), encl(keys)))
+    out.append("entries %s" % encl(os.listdir(os.path.join(param["simpath"], param["simname"]))))
+    return out
+
+
+def judge_chunk_witness(reading, param, on_disk):
+    """(variables get_content reports, variables iterations() reports in ET names) on the real code"""
+    e, vf = call(reading.get_content, param, restart=0, overwrite=True, verbose=False)
+    got = sorted({v for k in vf for v in k}) if not e else e
+    e2, r = call(reading.iterations, param, skip_last=False, verbose=False)
+    a2e = reading.aurel_to_ET_varnames
+    got2 = e2 if e2 else sorted({x for v in r[0].get("var available", []) for x in a2e.get(v, [v])})
+    return got, got2
+
+
+def chunk_variable_witnesses(ctx, reading):
+    """KNOWN FINDING (kind group_variables_from_one_chunk_file), rebuilt and re-run on the real code on every
+    run; the witness directories also go through the model (correspondence)."""
+    root = tempfile.mkdtemp(prefix="c18k-")
+    lines, exp, res = table_lines(reading), [], {}
+    exp += ["ok"] * len(lines)
+    try:
+        for which in CHUNK_WITNESSES:
+            param, d, on_disk = build_chunk_witness(root, which)
+            listing = [fn for fn in os.listdir(d) if fn.endswith(".h5")]
+            got, got2 = judge_chunk_witness(reading, param, on_disk)
+            wl = chunk_witness_lines(param, d)
+            lines += wl
+            exp += ["ok"] * len(wl)
+            # the calls above wrote content.txt / iterations.txt; the model starts from the same empty state
+            for fn in ("content.txt",):
+                if os.path.exists(os.path.join(d, fn)):
+                    os.remove(os.path.join(d, fn))
+            it_path = os.path.join(root, param["simname"], "iterations.txt")
+            if os.path.exists(it_path):
+                os.remove(it_path)
+            e, vf = call(reading.get_content, param, restart=0, overwrite=True, verbose=False)
+            lines.append("content 0 1")
+            exp.append((e if e else canon_vf(vf)) + " ; " + enc(open(os.path.join(d, "content.txt")).read()))
+            e2, r2 = call(reading.iterations, param, skip_last=False, verbose=False)
+            lines.append("iter 0")
+            exp.append((e2 if e2 else canon_result(r2)) + " ; " + file_text(it_path))
+            res[which] = {"listing order": listing, "on disk": on_disk, "get_content": got, "iterations 'var available' (ET names)": got2}
+            if got != on_disk or got2 != on_disk:
+                ctx.violation("get_content reads the variables of group hydrobase-ham from ONE chunk file (%s first): "
+                              "variables %r catalogued, %r on disk (witness %s)" % (listing[0], got, on_disk, which),
+                              {"kind": "group_chunks", "witness": which},
+                              {"kind": "group_variables_from_one_chunk_file"})
+    finally:
+        shutil.rmtree(root, ignore_errors=True)
+    ctx.cov["known finding group_variables_from_one_chunk_file: witnesses on the real code"] = res
+    try:
+        outs = ctx.run_driver("Driver/C18.lean", lines)
+    except Exception as ex:  # noqa
+        ctx.obligation("chunk-witness:driver", False, repr(ex), kind="correspondence")
+        return
+    bad = ["`%s`: real `%s` model `%s`" % (l[:60], e[:300], o[:300]) for l, e, o in zip(lines, exp, outs) if e != o]
+    ctx.obligation("correspondence: Model/Catalog vs reading.py on the witnesses of the known finding "
+                   "group_variables_from_one_chunk_file", not bad and len(outs) == len(lines), " ;; ".join(bad[:4]),
+                   kind="correspondence")
+
+
 def excluded_points(ctx, reading):
     """Corpus of former findings (all fixed in the code; must pass now):
     simulation names containing the markers the classifier looks for, glob
@@ -1437,6 +1544,7 @@ def run(ctx):
     regex_differential(ctx, reading)
     found = correspondence(ctx, reading)
     found += excluded_points(ctx, reading)
+    chunk_variable_witnesses(ctx, reading)
     found += par_correspondence(ctx, reading)
     parameters_observation(ctx, reading)
     ctx.cov["violations_found"] = found
@@ -1444,6 +1552,17 @@ def run(ctx):
 
 def replay(ctx, obj):
     from aurel import reading
+    if obj.get("kind") == "group_chunks":
+        root = tempfile.mkdtemp(prefix="c18r-")
+        try:
+            param, d, on_disk = build_chunk_witness(root, obj["witness"])
+            got, got2 = judge_chunk_witness(reading, param, on_disk)
+            bad = 1 if (got != on_disk or got2 != on_disk) else 0
+            print("replay: listing %r; get_content %r; iterations %r; on disk %r" % (os.listdir(d), got, got2, on_disk))
+            print("replay: %d violation(s) now" % bad)
+            return bad
+        finally:
+            shutil.rmtree(root, ignore_errors=True)
     if obj.get("kind") == "par":
         root = tempfile.mkdtemp(prefix="c18r-")
         old = os.environ.get("SIMLOC")
@@ -1495,5 +1614,5 @@ MANIFEST = {
     "category": "proof",
     "technique": "Lean 4 theorems over hand-written executable models of the catalogue code (string-level printer / split-based parser, regex matchers, incremental iterations() on a modelled file system, get_content cache, overall merge) and of the .par parser of parameters(), tied to reading.py by correspondence on generated simulation trees (regrids inside restarts, chunked and unnumbered components, variable names that are substrings of other keys / of the thorn / of the attributes group name, per-variable iteration sets inside one file) and call sequences, on generated parameter files, and by regex differential testing; oracle = the generator's ground truth per file and variable",
     "text": "Proof for all inputs: the three name matchers invert the naming scheme for every valid key / file name / checkpoint name; read_iterations parses back every catalogue the printer can write, for every path without a line break and plain variable names; any interleaving of iterations() calls with restarts being added leaves the same file and returns the same structure as one fresh scan; cached get_content equals the scan when no variable name contains a comma. The data part of a restart is a closed-form function of the keys of the variable considered (the variable of the first key of the representative file that rx_key matches): the keys are selected by their parsed variable name, exactly and without exception, whatever substrings the names share; the line of a level is the arithmetic progression on disk for ANY list of keys of that variable at the level (several chunks, one unnumbered chunk, repetitions, regrids that change the chunk count) whose SET of iterations is the progression, it depends on that set only, and the per-level block never raises. The overall merge never raises and describes exactly the union of the per-restart progressions, provided every merge of two equal-stride ranges continues the first one (the code does not check this; kernel-checked gap witness). The .par parser of parameters() reads back every line `thorn::variable = value` (any white space, thorn without ':', variable without '=', decimal integers, quoted strings without a double quote inside, bare words) and every file made of such lines, comments and blank lines, when the word ActiveThorns does not occur in an entry line and no '#' occurs inside a value (kernel-checked witnesses that both hypotheses are necessary).",
-    "note": "Trusted: Lean kernel + propext/Classical.choice/Quot.sound; the hand-written models (validated on every run against the real code: returned dicts and bytes of iterations.txt/content.txt after every call on generated trees with benign and adversarial names, 1-5 restarts, 1-12 levels, four file layouts, checkpoints, regrids inside a restart incl. one unnumbered chunk <-> several, per-variable iteration sets in one file; the parameter dictionary on generated .par files); Python str/int/float/repr/json/glob/h5py semantics (h5py lists keys alphabetically: taken from the real library as input). NOT covered by theorems (modelled and compared with the code only): the choice of ONE representative file per restart (no statement that the other files hold the same iterations; a process file that lacks a level at some iterations is not generated), float values and ActiveThorns lines of a .par file (a negative number with a negative exponent, e.g. -1.5e-3, and a '#' inside a quoted string do not come back as written: recorded in the evidence, reported to the lead). Not modelled: the SIMLOC lookup and the grid quantities of parameters().",
+    "note": "Trusted: Lean kernel + propext/Classical.choice/Quot.sound; the hand-written models (validated on every run against the real code: returned dicts and bytes of iterations.txt/content.txt after every call on generated trees with benign and adversarial names, 1-5 restarts, 1-12 levels, four file layouts, checkpoints, regrids inside a restart incl. one unnumbered chunk <-> several, per-variable iteration sets in one file; the parameter dictionary on generated .par files); Python str/int/float/repr/json/glob/h5py semantics (h5py lists keys alphabetically: taken from the real library as input). KNOWN FINDING (not repaired in the repository; kind group_variables_from_one_chunk_file): get_content reads the variables of a group from ONE chunk file (the first of the group in the directory listing), so chunk files that do not all hold the same variables (one file per process, a regrid that adds process files late, per-variable output frequencies) make the restart's variable catalogue lose variables that are on disk; two witness directories are rebuilt and run on the real code and through the model on every run (KNOWN-FINDING line), kernel-checked on the model (group_variables_from_one_chunk_file, ..._any_order); the random generator stays outside that combination. NOT covered by theorems (modelled and compared with the code only): the choice of ONE representative file per restart (no statement that the other files hold the same iterations; a process file that lacks a level at some iterations is not generated), float values and ActiveThorns lines of a .par file. parameters() is an anchor but not in the property text; three behaviours of its .par parser are outside the hypotheses of the round-trip theorems, with kernel-checked necessity witnesses in Props/C18b and the real outcomes in the evidence, reported to the lead, no finding entry: a number with '-' in mantissa AND exponent (-5.0e-1) stays a string (CoordBase::xmin = -5.0e-1 makes parameters() raise TypeError in the grid arithmetic); '#' inside a quoted string starts a comment (\"run#1\" -> 'run'); a piece between '::' equal to ActiveThorns raises TypeError. Not modelled: the SIMLOC lookup and the grid quantities of parameters().",
 }
